@@ -32,11 +32,11 @@ theorem runLossFwd_eq (r : List (Elem ℝ)) :
 
 theorem loss_attIn (u : String) (p : FiberP ℝ) (a : ℝ) (d : Option ℝ) :
     (Elem.fiber u { p with attIn := a, dsl := d }).loss = (Elem.fiber u p).loss + (a - p.attIn) := by
-  simp only [Elem.loss, FiberP.loss]; ring
+  simp only [Elem.loss, FiberP.loss, FiberP.lumped]; ring
 
 theorem loss_dsl (u : String) (p : FiberP ℝ) (d : Option ℝ) :
     (Elem.fiber u { p with dsl := d }).loss = (Elem.fiber u p).loss := by
-  simp only [Elem.loss, FiberP.loss]
+  simp only [Elem.loss, FiberP.loss, FiberP.lumped]
 
 theorem gain_attIn (u : String) (p : FiberP ℝ) (a : ℝ) (d : Option ℝ) :
     (Elem.fiber u { p with attIn := a, dsl := d }).ramanGain = (Elem.fiber u p).ramanGain := by
